@@ -609,3 +609,100 @@ Proof.
   unfold load_one. rewrite Hs, H1. reflexivity.
 Qed.
 End LoadOk.
+
+(* ================================ deepening round ============================================== *)
+Section Deepen.
+Context {A : Type}.
+Notation tensor := (tensor A).
+Notation param := (param A).
+Notation named := (named A).
+Notation mstate := (mstate A).
+
+(* ---- the guard of shrink_preserve_parameters holds for every parameter kind the shrinking mutations
+        (remove_layer, remove_channel, remove_block) can resize: rank <= 2 (biases, norm weights and
+        statistics, linear layers) and convolution kernels whose kernel dimensions are unchanged ------ *)
+Lemma size_eqb_refl (l : list nat) : size_eqb l l = true.
+Proof. apply size_eqb_eq. reflexivity. Qed.
+
+Theorem shrink_guard_rank_le2_lemma : forall so sn : list nat,
+  length so = length sn -> length so <= 2 -> shrink_guard so sn = true.
+Proof.
+  intros so sn Hl H2. unfold shrink_guard. rewrite Hl, Nat.eqb_refl. cbn [andb].
+  destruct so as [|a [|b [|c so]]], sn as [|a' [|b' [|c' sn]]]; cbn in *; try reflexivity; try lia.
+Qed.
+
+Theorem shrink_guard_same_kernel_lemma : forall (co ci co' ci' : nat) (kernel : list nat),
+  shrink_guard (co :: ci :: kernel) (co' :: ci' :: kernel) = true.
+Proof.
+  intros. unfold shrink_guard. cbn [length skipn]. rewrite Nat.eqb_refl. cbn [andb]. apply size_eqb_refl.
+Qed.
+
+(* a network all of whose resized parameters are of these two kinds is re-created by the shrinking
+   function without error and with the result of the general one *)
+Definition shrinkable (so sn : list nat) : Prop :=
+  so = sn \/ (length so = length sn /\ length so <= 2) \/
+  (exists co ci co' ci' kernel, so = co :: ci :: kernel /\ sn = co' :: ci' :: kernel).
+
+Theorem shrink_on_cnn_lemma : forall (old new : named),
+  wf_named old -> wf_named new ->
+  (forall k op p, lookup k old = Some op -> In (k, p) new -> shrinkable (p_size op) (p_size p)) ->
+  shrink_preserve old new = Some (preserve old new).
+Proof.
+  intros old new Wo Wn H.
+  destruct (shrink_total_lemma old new) as [r Hr].
+  - intros k op p Ho Hin. destruct (H k op p Ho Hin) as [E|[[Hl H2]|(co & ci & co' & ci' & ker & -> & ->)]].
+    + left; exact E.
+    + right. apply shrink_guard_rank_le2_lemma; assumption.
+    + right. apply shrink_guard_same_kernel_lemma.
+  - rewrite Hr. f_equal. apply shrink_eq_preserve_lemma; assumption.
+Qed.
+
+(* ---- a growing mutation loses nothing: if every axis of the old size fits into the new size, every
+        entry of the old tensor is found at the same index afterwards --------------------------------- *)
+Lemma in_range_mono : forall ix so sn, size_le so sn = true -> in_range ix so = true -> in_range ix sn = true.
+Proof.
+  induction ix as [|i ix IH]; intros [|d so] [|d' sn] Hs Hr; cbn [in_range size_le] in *; try discriminate; auto.
+  apply andb_true_iff in Hs as [H1 H2]. apply andb_true_iff in Hr as [H3 H4].
+  apply Nat.leb_le in H1. apply Nat.ltb_lt in H3.
+  assert (Hi : (i <? d') = true) by (apply Nat.ltb_lt; lia). rewrite Hi. cbn [andb]. eapply IH; eauto.
+Qed.
+
+Theorem grow_keeps_everything_lemma : forall (old new : named) k op p,
+  wf_named old -> wf_named new ->
+  lookup k old = Some op -> lookup k new = Some p -> size_le (p_size op) (p_size p) = true ->
+  exists rp, lookup k (preserve old new) = Some rp /\
+    forall ix a, get (p_data op) ix = Some a -> get (p_data rp) ix = Some a.
+Proof.
+  intros old new k op p Wo Wn Ho Hn Hle.
+  destruct (preserve_keeps_common_lemma old new k op p Ho Hn) as (rp & Hl & Hc).
+  exists rp. split; [exact Hl|]. intros ix a Ha.
+  pose proof (wf_lookup _ _ _ Wo Ho) as Wop. pose proof (wf_lookup _ _ _ Wn Hn) as Wp.
+  assert (Ro : in_range ix (p_size op) = true) by (apply (get_in_range _ _ ix Wop); eauto).
+  pose proof (in_range_mono ix _ _ Hle Ro) as Rn.
+  apply (get_in_range _ _ ix Wp) in Rn as [b Hb]. eapply Hc; eauto.
+Qed.
+
+(* ---- train / eval mode ------------------------------------------------------------------------------ *)
+Theorem recreate_state_same_function_lemma :
+  forall (X Y : Type) (forward : mstate -> X -> Y) (old fresh : mstate),
+  NoDup (map fst (st_named old)) -> same_sig (st_named old) (st_named fresh) ->
+  recreate_state false old fresh = Some old /\
+  (forall x, forward (clone_state old fresh) x = forward old x).
+Proof.
+  intros X Y forward [on ot] [fn ft] Hnd Hs. cbn [st_named st_training] in *. split.
+  - unfold recreate_state, recreate. cbn [st_named st_training].
+    rewrite (same_arch_same_params_lemma on fn Hnd Hs). reflexivity.
+  - intros x. unfold clone_state. cbn [st_named st_training].
+    destruct (clone_same_lemma on fn Hnd Hs) as [-> _]. reflexivity.
+Qed.
+End Deepen.
+
+(* before 1205c28 a network in eval mode came back from a no-op re-creation in training mode *)
+Lemma mode_lost_refuted_lemma :
+  exists old fresh : mstate nat, same_sig (st_named old) (st_named fresh) /\ NoDup (map fst (st_named old)) /\
+    recreate_state_pinned old fresh <> old.
+Proof.
+  exists {| st_named := sw_self; st_training := false |}, {| st_named := sw_self; st_training := true |}.
+  split; [repeat constructor|]. split; [repeat constructor; cbn; tauto|].
+  vm_compute. intros H. discriminate H.
+Qed.
